@@ -167,6 +167,11 @@ func TestWorker(t *testing.T) {
 		if out.HarnessErr != "" {
 			res.HarnessErrs = append(res.HarnessErrs, out.HarnessErr)
 		}
+		if os.Getenv("VERIF_TRACE") != "" {
+			for _, t := range out.Trace {
+				fmt.Println(t)
+			}
+		}
 		for _, v := range out.Viol {
 			if v.Prop == c.Prop {
 				res.Violations = append(res.Violations, ViolRec{Prop: v.Prop, Class: v.Class, Msg: v.Msg, Path: sp.Replay, Run: c.Run})
